@@ -21,9 +21,16 @@ THEOREMS = ["Claripy.Props.C12.C12_mro_child", "Claripy.Props.C12.C12_mro_compos
             # the other value queries (generic query theorem + footprints of batch_eval / solution), the witness about _reabsorb_solver
             "Claripy.Props.C12.C12_batch_eval_correct", "Claripy.Props.C12.C12_solution_correct",
             "Claripy.Props.C12.C12_child_footprint_batch_solution", "Claripy.Props.C12.C12_value_query_after_history_partial",
-            "Claripy.Props.C12.C12_reabsorb_breaks_CInv_as_stated", "Claripy.Solver.compQuery_judge",
+            "Claripy.Props.C12.C12_reabsorb_marker_without_model", "Claripy.Solver.compQuery_judge",
             "Claripy.Solver.child_batchEval_foot", "Claripy.Solver.child_solution_foot",
-            "Claripy.Props.C12.C12_update_accepts_valid"]
+            "Claripy.Props.C12.C12_update_accepts_valid",
+            # round 6: the marker clauses of MCInv under the guard of the code; CInv THROUGH the queries; whole histories
+            "Claripy.Props.C12.C12_marker_guarded", "Claripy.Props.C12.C12_marker_unguarded", "Claripy.Props.C12.C12_reabsorb_noop",
+            "Claripy.Props.C12.C12_call_keeps_invariant", "Claripy.Props.C12.C12_composite_history_partial",
+            "Claripy.Props.C12.C12_composite_history_invariant", "Claripy.Props.C12.C12_composite_history_given_reabsorb_partial",
+            "Claripy.Solver.CInv.of_world", "Claripy.Solver.compQuery_keeps", "Claripy.Solver.compTruth_keeps",
+            "Claripy.Solver.solverForNames_one", "Claripy.Solver.child_truth_foot", "Claripy.Solver.MCInv.evalExh",
+            "Claripy.Solver.MCInv.opt"]
 A = lambda c, s=0: {"s": s, "op": "add", "cs": [c]}  # noqa: E731
 E = lambda e, n, s=0: {"s": s, "op": "eval", "e": e, "n": n, "extra": []}  # noqa: E731
 RULES = {
